@@ -1,5 +1,8 @@
 import Emerge.Proofs.Follow
 import Emerge.Proofs.Follow2
+import Emerge.Proofs.Subset
+import Emerge.Proofs.FollowDenote
+import Emerge.Inst.Regex
 /-
   C10 — the direct (followpos) pattern-to-DFA construction.
 
@@ -90,6 +93,49 @@ theorem C10_position_automaton (n : Node) (hl : Lin n) (w : List Rune) :
 
 /-- the tree `ast.Parse` hands to `ToDFA` (pattern, end marker appended, `indexChars`) has distinct positions -/
 theorem C10_build_lin (T : ClassTable) (p : Pat) : Lin (build T p).root := build_lin T p
+
+/-- the tree `ast.Parse` hands to `ToDFA` is the pattern's tree, numbered from 1, followed by the end marker at the last
+    position, which no leaf of the pattern carries -/
+theorem C10_build_marked (T : ClassTable) (p : Pat) : Marked (build T p) (index 1 (ofPat T p)).1 endMarker := build_marked T p
+
+/-- **The worklist loop of `ToDFA` is the subset construction**: whatever it returns is closed - state 0 is
+    `firstPos(root)`, every state has on every input symbol a transition to the state that is `U` (the followers of its
+    positions carrying that symbol) as a set, and there are no other transitions. -/
+theorem C10_explore (t : Tree) (symbols : List Rune) (fuel : Nat) (r : List Poses × Follow.Trans)
+    (h : explore t symbols fuel 0 [t.root.firstPos] [] = some r) :
+    r.1[0]? = some t.root.firstPos ∧ (∀ k, k < r.1.length → ∀ c ∈ symbols, Covered t r.1 r.2 k c) ∧ (∀ e ∈ r.2, e.2.1 ∈ symbols) :=
+  explore_spec t symbols fuel 0 [t.root.firstPos] [] ⟨rfl, (fun k hk => by omega), (fun e he => by cases he), (fun e he => by cases he)⟩ r h
+
+/-- **The automaton of the direct route accepts exactly the language of the pattern's tree** (before the dependency's
+    `Minimize`): for every pattern, whatever automaton the model of `ToDFA` returns accepts a string - any string, also one
+    with characters the pattern does not mention or with the character used as end marker - iff the string is in the
+    language of the tree the mappers built for the pattern. -/
+theorem C10_dfa (T : ClassTable) (p : Pat) (d : DFA) (hd : toDFA? (build T p) = some d) (w : List Rune) :
+    d.accepts (build T p) w = true ↔ Node.lang (ofPat T p) w := by
+  rw [dfa_language (build_marked T p) d hd w, lang_index]
+
+/-- **… which is the documented language of the pattern**: for every pattern the mappers can build (sub-expressions are
+    item lists) and every string without NUL, the automaton of the direct route - over the class table regenerated from
+    the source - accepts the string iff the pattern matches it under the documented meaning of every construct. -/
+theorem C10_dfa_documented (p : Pat) (hs : spined p = true) (d : DFA)
+    (hd : toDFA? (build Gen.Regex.runeClasses p) = some d) (w : List Rune) (hw : NoNul w) :
+    d.accepts (build Gen.Regex.runeClasses p) w = true ↔ p.denote Gen.Regex.runeClasses w := by
+  rw [C10_dfa Gen.Regex.runeClasses p d hd w]
+  have := (ofPat_lang Gen.Regex.runeClasses Inst.Regex.ascii_ok p).1 hs w
+  simp only [nn] at this
+  constructor
+  · intro h; exact this.mp ⟨h, hw⟩
+  · intro h; exact (this.mpr h).1
+
+/-- Non-vacuity: `ab*` and `\xEEEE|a` (a pattern that itself contains the end-marker character): the loop terminates,
+    and the automaton accepts and rejects as the theorem says. -/
+def patAB : Pat := .scons (.char 97) (.scons (.quant (.char 98) .star false) .snil)
+def patMk : Pat := .alt (.scons (.char endMarker) .snil) (.scons (.char 97) .snil)
+example : (toDFA? (build [] patAB)).isSome = true := by decide +kernel
+example : ((toDFA? (build [] patAB)).map fun d => (d.accepts (build [] patAB) [97, 98, 98], d.accepts (build [] patAB) [98], d.accepts (build [] patAB) [])) =
+    some (true, false, false) := by decide +kernel
+example : ((toDFA? (build [] patMk)).map fun d => (d.accepts (build [] patMk) [endMarker], d.accepts (build [] patMk) [97], d.accepts (build [] patMk) [])) =
+    some (true, true, false) := by decide +kernel
 
 /-- Non-vacuity / regression: the trees of `a?`, `(a*)b` … : a concatenation of nullable operands is nullable,
     `a{0}` (an empty concatenation) is nullable, `ab?` is not. -/
